@@ -44,6 +44,7 @@ import (
 	"wa-lang.org/wa/internal/token"
 	"wa-lang.org/wa/internal/types"
 	wparser "wa-lang.org/wa/internal/wat/parser"
+	wtoken "wa-lang.org/wa/internal/wat/token"
 	"wa-lang.org/wa/internal/zzverif/astdump"
 	"wa-lang.org/wa/internal/zzverif/mc"
 )
@@ -357,15 +358,154 @@ var (
 	tokWz = bs("函数", "主控", "甲", "整型", "·", "(", ")", "[", "]", ":", "=>", "=", ":=", ",", ".", "0", `"s"`, "*", "+",
 		"引入", "类型", "结构", "接口", "如果", "循环", "返回", "全局", "常量", "完毕", "\n")
 	tokWat = bs("(", ")", "module", "func", "param", "result", "local", "i32", "i64", "local.get", "i32.const", "i32.add", "call", "$x",
-		"export", "import", `"s"`, "0", "memory", "data", "table", "elem", "type", "global", "mut", "start", "block", "end", "if", ";;c\n")
+		"export", "import", `"s"`, "0", "memory", "data", "table", "elem", "type", "global", "mut", "start", "block", "end", "if", ";;c\n", "'\n", "'a'")
 	tokNasm = bs(".section", ".text", ".data", ".globl", ".align", ".quad", ".ascii", ".intel_syntax", "noprefix", "x", ":", "0", `"s"`, ",",
 		"(", ")", "[", "]", "+", "=", "\n", "addi.d", "$a0", "%pc_hi20", "mov", "rax", "a0", "x0", "函数", "全局", "完毕", "字串", "# c\n")
 
 	subWa   = bs("a", "0", `"s"`, "(", ")", "{", "}", ":", ",", "func", "=", "\n")
 	subWz   = bs("甲", "0", `"s"`, "(", ")", ":", "完毕", "·", "函数", "=", ",", "\n")
-	subWat  = bs("(", ")", "$x", "0", `"s"`, "func", "i32", "module", "i32.const", "param")
+	subWat  = bs("(", ")", "$x", "0", `"s"`, "func", "i32", "module", "i32.const", "param", "'", "'a'", "'\n")
 	subNasm = bs("x", "0", `"s"`, ",", ":", "(", ")", ".section", "$a0", "rax", "[", "\n")
 )
+
+// ---------------------------------------------------------------------------------------------
+// Vocabularies taken from the token packages of the tree under verification: ALL keywords and
+// operators of each language (not a selection), plus one literal of every literal class.
+
+func uniq(in [][]byte) [][]byte {
+	seen := map[string]bool{}
+	var out [][]byte
+	for _, b := range in {
+		if !seen[string(b)] && len(b) > 0 {
+			seen[string(b)] = true
+			out = append(out, b)
+		}
+	}
+	return out
+}
+
+func waKeywords(wz bool) (kw, ops [][]byte) {
+	for t := token.Token(0); t < 400; t++ {
+		switch {
+		case !wz && t.IsKeyword(), wz && t.IsWzKeyword():
+			kw = append(kw, []byte(t.String()))
+		case t.IsOperator():
+			ops = append(ops, []byte(t.String()))
+		}
+	}
+	return
+}
+
+func watKeywords() (kw, ins [][]byte) {
+	for t := wtoken.Token(0); t < 600; t++ {
+		switch {
+		case t.IsKeyword():
+			kw = append(kw, []byte(t.String()))
+		case t.IsIsntruction():
+			ins = append(ins, []byte(t.String()))
+		}
+	}
+	return
+}
+
+func nasmKeywords() (kw, ops [][]byte) {
+	for t := ntoken.Token(0); t < 400; t++ {
+		switch {
+		case t.IsGasKeyword() || t.IsZhKeyword():
+			kw = append(kw, []byte(t.String()))
+		case t.IsOperator():
+			ops = append(ops, []byte(t.String()))
+		}
+	}
+	return
+}
+
+type ctxDef struct{ name, pre, post string }
+
+// stmtPosClass: every token of the vocabulary alone, doubled, and followed by each token of
+// follow, as the only content at a syntactic position (ctx) of an otherwise valid file.
+func stmtPosClass(lang string, vocab, follow [][]byte, ctxs []ctxDef) *class {
+	forms := 2 + len(follow)
+	n := len(ctxs) * len(vocab) * forms
+	return &class{Name: fmt.Sprintf("stmtpos-%s(%d tokens x %d forms x %d positions)", lang, len(vocab), forms, len(ctxs)), Lang: lang, N: n, Gen: func(i int) []byte {
+		f := i % forms
+		t := vocab[i/forms%len(vocab)]
+		c := ctxs[i/forms/len(vocab)]
+		b := append([]byte(c.pre), t...)
+		switch {
+		case f == 1:
+			b = append(append(b, ' '), t...)
+		case f >= 2:
+			b = append(append(b, ' '), follow[f-2]...)
+		}
+		return append(b, c.post...)
+	}}
+}
+
+func stmtPosClasses() []*class {
+	kwWa, opsWa := waKeywords(false)
+	kwWz, _ := waKeywords(true)
+	lits := bs("a", "_", "0", "1.5", "2i", "'c'", `"s"`, "`r`", "nil", "true", "iota", "this", "int", "//c\n", "/*c*/", "#c\n", "#wa:export x\n", "\n", "'", `"`, "'\n", "\"\n")
+	vocabWa := uniq(append(append(append([][]byte{}, kwWa...), opsWa...), lits...))
+	litsWz := bs("甲", "_", "0", "1.5", "'c'", `"s"`, "空", "真", "嘀嗒", "我的", "整型", "·", "注: c\n", "//c\n", "#凹:导出 x\n", "\n", "'", `"`, "'\n", "\"\n")
+	vocabWz := uniq(append(append(append(append([][]byte{}, kwWz...), kwWa...), opsWa...), litsWz...))
+	ctxWa := []ctxDef{
+		{"file", "", "\n"},
+		{"func-body", "func f {\n\t", "\n}\n"},
+		{"func-body-one-line", "func f { ", " }"},
+		{"nested-block", "func f {\n\tif a {\n\t\t", "\n\t}\n}\n"},
+		{"struct-body", "type T :struct {\n\t", "\n}\n"},
+		{"interface-body", "type I :interface {\n\t", "\n}\n"},
+		{"param-list", "func f(", ") {\n}\n"},
+		{"expr", "func f {\n\ta := ", "\n}\n"},
+		{"case-clause", "func f {\n\tswitch a {\n\tcase 1:\n\t\t", "\n\t}\n}\n"},
+		{"composite-lit", "global g = T{", "}\n"},
+	}
+	ctxWz := []ctxDef{
+		{"file", "", "\n"},
+		{"func-body", "函数 f:\n\t", "\n完毕\n"},
+		{"func-body-one-line", "函数 f: ", " 完毕"},
+		{"nested-block", "函数 f:\n\t如果 甲:\n\t\t", "\n\t完毕\n完毕\n"},
+		{"struct-body", "结构 T:\n\t", "\n完毕\n"},
+		{"interface-body", "接口 I:\n\t", "\n完毕\n"},
+		{"param-list", "函数 f(", "):\n完毕\n"},
+		{"expr", "函数 f:\n\t甲 := ", "\n完毕\n"},
+		{"case-clause", "函数 f:\n\t找辙 甲:\n\t有辙 1:\n\t\t", "\n\t完毕\n完毕\n"},
+		{"composite-lit", "全局 g = T{", "}\n"},
+	}
+	kwWat, insWat := watKeywords()
+	vocabWat := uniq(append(append(append([][]byte{}, kwWat...), insWat...), bs("(", ")", "=", "$x", "0", "-1", "0x1F", "1.5", "'a'", "'", `"s"`, `"`, "'\n", "\"\n", ";;c\n", "(;c;)", "offset=8", "\n")...))
+	ctxWat := []ctxDef{
+		{"file", "", "\n"},
+		{"module", "(module ", ")"},
+		{"module-field", "(module (", "))"},
+		{"func-body", "(module (func $f (result i32) ", "))"},
+		{"const-operand", "(module (func $f i32.const ", "))"},
+		{"global-init", "(module (global $g i32 (i32.const ", ")))"},
+		{"func-header", "(module (func $f (", ") ))"},
+		{"data-offset", "(module (memory 1) (data (", ") \"s\"))"},
+	}
+	kwNasm, opsNasm := nasmKeywords()
+	vocabNasm := uniq(append(append(append([][]byte{}, kwNasm...), opsNasm...), bs("x", ".x", "0", "-1", "1.5", "'c'", `"s"`, "'", `"`, "'\n", "\"\n", "# c\n", "\n",
+		"addi.d", "$a0", "%pc_hi20", "mov", "rax", "qword", "ptr", "addi", "a0", "add", "x0", "加立.长", "$零格")...))
+	ctxNasm := []ctxDef{
+		{"file", "", "\n"},
+		{"x64-file", ".intel_syntax noprefix\n", "\n"},
+		{"data-section", ".section .data\n.align 3\nx: ", "\n"},
+		{"data-value", ".section .data\nx: .quad ", "\n"},
+		{"text-section", ".section .text\n.globl f\nf:\n\t", "\n"},
+		{"x64-text-section", ".intel_syntax noprefix\n.section .text\n.globl f\nf:\n\t", "\n"},
+		{"operand", ".section .text\nf:\n\taddi.d $a0, ", "\n"},
+		{"zh-func-body", "函数 f:\n\t", "\n完毕\n"},
+		{"zh-global", "全局 x: ", "\n"},
+	}
+	return []*class{
+		stmtPosClass("wa", vocabWa, bs("a", ":", "{", "\n"), ctxWa),
+		stmtPosClass("wz", vocabWz, bs("甲", ":", "{", "\n"), ctxWz),
+		stmtPosClass("wat", vocabWat, bs("$x", "0", "(", "\n"), ctxWat),
+		stmtPosClass("nasm", vocabNasm, bs("x", ":", ",", "\n"), ctxNasm),
+	}
+}
 
 type seedDef struct{ Lang, Path string }
 
@@ -403,9 +543,10 @@ type tok struct {
 
 type seed struct {
 	seedDef
-	toks []tok
-	tail []byte
-	sub  [][]byte
+	toks   []tok
+	tail   []byte
+	sub    [][]byte // small structural alphabet first, then every keyword of the language
+	nsmall int
 }
 
 func isIdentByte(c byte, lang string) bool {
@@ -482,7 +623,8 @@ func tokenize(src []byte, lang string) (toks []tok, tail []byte) {
 }
 
 func (s *seed) render(ops map[int]int) []byte {
-	// ops: token index -> 0 delete, 1 duplicate, 2+k substitute s.sub[k]
+	// ops: token index -> 0 delete, 1 duplicate, 2+k substitute s.sub[k], 2+len(sub)+k insert
+	// s.sub[k] before the token
 	var b []byte
 	for i, t := range s.toks {
 		op, ok := ops[i]
@@ -495,22 +637,32 @@ func (s *seed) render(ops map[int]int) []byte {
 			b = append(b, t.text...)
 			b = append(b, ' ')
 			b = append(b, t.text...)
-		default:
+		case op < 2+len(s.sub):
 			b = append(b, s.sub[op-2]...)
+		default:
+			b = append(b, s.sub[op-2-len(s.sub)]...)
+			b = append(b, ' ')
+			b = append(b, t.text...)
 		}
 	}
 	return append(b, s.tail...)
 }
 
+// dev1: one token deleted, duplicated, substituted by or preceded by any token of the seed's
+// mutation alphabet (a small structural set plus every keyword of the language).
 func (s *seed) dev1() *class {
-	m := 2 + len(s.sub)
+	m := 2 + 2*len(s.sub)
+	if len(s.toks) > 150 {
+		m = 2 + len(s.sub) // large seeds (three native assembly files): no insertions, to bound the cost
+	}
 	return &class{Name: "mut1:" + s.Path, Lang: s.Lang, N: len(s.toks) * m, Gen: func(i int) []byte {
 		return s.render(map[int]int{i / m: i % m})
 	}}
 }
 
+// dev2: two mutations, from the small structural alphabet only (delete, duplicate, substitute).
 func (s *seed) dev2() *class {
-	m := 2 + len(s.sub)
+	m := 2 + s.nsmall
 	n := len(s.toks)
 	// pairs p<q in lexicographic order
 	off := make([]int, n+1)
@@ -535,16 +687,23 @@ func loadSeeds() ([]*seed, error) {
 		}
 		s := &seed{seedDef: d}
 		s.toks, s.tail = tokenize(data, d.Lang)
+		var small, kw [][]byte
 		switch d.Lang {
 		case "wa":
-			s.sub = subWa
+			small = subWa
+			kw, _ = waKeywords(false)
 		case "wz":
-			s.sub = subWz
+			small = subWz
+			kw, _ = waKeywords(true)
 		case "wat":
-			s.sub = subWat
+			small = subWat
+			kw, _ = watKeywords()
 		default:
-			s.sub = subNasm
+			small = subNasm
+			kw, _ = nasmKeywords()
 		}
+		s.sub = uniq(append(append([][]byte{}, small...), kw...))
+		s.nsmall = len(small)
 		out = append(out, s)
 		perLang[d.Lang]++
 	}
@@ -560,6 +719,9 @@ type space struct {
 	classes []*class
 	seeds   []*seed
 	nPre    int
+	// classes [0, nPreClasses) run in the preflight round: one job per (entry point, variant), so
+	// that a hang reached from several variants costs one horizon, not one per variant
+	nPreClasses int
 }
 
 func buildSpace(thorough bool) (*space, error) {
@@ -587,7 +749,10 @@ func buildSpace(thorough bool) (*space, error) {
 	if thorough {
 		L = 4
 	}
-	sp.classes = append(sp.classes, pre,
+	sp.classes = append(sp.classes, pre)
+	sp.classes = append(sp.classes, stmtPosClasses()...)
+	sp.nPreClasses = len(sp.classes)
+	sp.classes = append(sp.classes,
 		seqClass("bytes256^2", "", all256, 2, 2, nil),
 		seqClass(fmt.Sprintf("struct26^2..%d", L), "", structBytes, 2, L, nil),
 		seqClass(fmt.Sprintf("tok-wa^1..%d", L), "wa", tokWa, 1, L, []byte(" ")),
@@ -869,7 +1034,15 @@ func watchdog() {
 			}
 		}
 		call := curCall.Load().([4]int)
-		data, _ := json.Marshal(Finding{Class: call[0], Idx: call[1], Unit: call[2], Sub: call[3], Kind: "hang", Msg: fmt.Sprintf(">%ds", int(horizon.Seconds())), Loc: loc})
+		// Which of a looping function and the callee it keeps re-entering is common to all samples
+		// is a matter of chance, so the class is the package directory of that frame; the sampled
+		// file:function goes into the description.
+		pkg := loc
+		if i := strings.IndexByte(loc, ':'); i >= 0 {
+			pkg = filepath.Dir(loc[:i])
+		}
+		data, _ := json.Marshal(Finding{Class: call[0], Idx: call[1], Unit: call[2], Sub: call[3], Kind: "hang", Msg: fmt.Sprintf(">%ds", int(horizon.Seconds())), Loc: pkg,
+			Raw: "sampled loop location: " + loc})
 		fmt.Fprintf(os.Stderr, "\n%s%s\n", hangMarker, data)
 		os.Exit(3)
 	}
@@ -1187,7 +1360,9 @@ func (s *supervisor) handle(j Job, res mc.Result) {
 	}
 }
 
-func (s *supervisor) onHang(j Job, h Finding) {
+// noteHang records one full-horizon hang observation: counts it, drops the entry point variant
+// once the tier's limit is reached, starts the 5x confirmation of a new class.
+func (s *supervisor) noteHang(h Finding) {
 	us := [2]int{h.Unit, h.Sub}
 	k := h.key()
 	s.mu.Lock()
@@ -1208,6 +1383,10 @@ func (s *supervisor) onHang(j Job, h Finding) {
 		go s.confirmHang(h)
 	}
 	s.addFinding(h)
+}
+
+func (s *supervisor) onHang(j Job, h Finding) {
+	s.noteHang(h)
 	// the calls before the hanging one are re-run (their results died with the worker), the rest
 	// continues without the hanging call
 	a, b := j, j
@@ -1390,7 +1569,10 @@ func main() {
 	defer s.pool.Close()
 
 	r.Rule("every input of each class (class 'pre': empty + 256 single bytes + unmodified seeds; all 2-byte strings; all strings of 2..L structural bytes; " +
-		"all sequences of 1..L tokens per language joined by a space; every single-token deletion/duplication/substitution of each seed; thorough: length-5 token " +
+		"all sequences of 1..L tokens per language joined by a space; per language every token of its full vocabulary (all keywords and operators of the token package, one literal per class, " +
+		"unterminated quotes) alone / doubled / followed by {identifier, ':', '{' or '(', newline} at 8-10 syntactic positions (file level, function body, nested block, struct and interface body, " +
+		"parameter list, expression, case clause, composite literal; module/func/operand positions for WAT, sections/operands for assembly); every single-token deletion/duplication/substitution " +
+		"by / insertion of a token of a mutation alphabet containing every keyword of the language, on each seed; thorough: length-5 token " +
 		"sequences on the language's own entry points and every pair of mutations on the two smallest seeds per language) x every entry point x every file name / CPU; " +
 		"loader.LoadProgramFile is called on every input that parses and is not rejected by the type checker configured as in loader.Import. " +
 		"Outcomes are classes (entry, language, ok / normalised error / panic)")
@@ -1412,6 +1594,15 @@ func main() {
 		total += c.N
 	}
 	r.Extra("classes", cnames)
+	if os.Getenv("C08_LIST") != "" {
+		fmt.Println(strings.Join(cnames, "\n"), "\ntotal", total)
+		for _, ci := range []int{1, 2, 3, 4} {
+			for _, i := range []int{0, 7, sp.classes[ci].N / 2, sp.classes[ci].N - 1} {
+				fmt.Printf("%s[%d] = %q\n", sp.classes[ci].Name, i, sp.classes[ci].Gen(i))
+			}
+		}
+		os.Exit(0)
+	}
 	r.Extra("inputs", total)
 	r.Assume("a call that has not returned after 30 s on an input below 1 KB (normal cost: microseconds; loader ~0.1 s) does not terminate in time bounded by the input size")
 	r.Assume("loader.LoadProgramFile on an input rejected by its parser or by types.Config.Check only repeats that call (loader.go: ParseDir / Import return the error); such inputs reach the parser and the type checker directly instead")
@@ -1420,16 +1611,21 @@ func main() {
 	// 1. preflight: one job per (entry point, variant) on the simplest inputs, so a pervasive hang
 	// costs one horizon for all variants together
 	var pre []Job
-	for u := range units {
-		for sub := range units[u].Subs {
-			j := Job{Thorough: thorough, Class: 0, From: 0, To: sp.nPre, Unit: u, Subs: []int{sub}}
-			if u == uLoader {
-				j.Idxs = []int{0}
-				for i := range sp.seeds {
-					j.Idxs = append(j.Idxs, 257+i)
+	for ci := 0; ci < sp.nPreClasses; ci++ {
+		for u := range units {
+			for sub := range units[u].Subs {
+				j := Job{Thorough: thorough, Class: ci, From: 0, To: sp.classes[ci].N, Unit: u, Subs: []int{sub}}
+				if u == uLoader {
+					if ci > 0 {
+						continue // the loader gets these classes through the candidates of types.Check
+					}
+					j.Idxs = []int{0}
+					for i := range sp.seeds {
+						j.Idxs = append(j.Idxs, 257+i)
+					}
 				}
+				pre = append(pre, j)
 			}
-			pre = append(pre, j)
 		}
 	}
 	phase := func(name string, t0 time.Time) {
@@ -1445,7 +1641,7 @@ func main() {
 	// 2. main enumeration
 	const batch = 400
 	var jobs []Job
-	for ci := 1; ci < len(sp.classes); ci++ {
+	for ci := sp.nPreClasses; ci < len(sp.classes); ci++ {
 		c := sp.classes[ci]
 		us := c.Units
 		if us == nil {
